@@ -3,6 +3,7 @@ SequentialIntegerAttributeDecoder::DecodeIntegerValues (whole function; the obje
 symbol decoder -- is a set of contract stubs)."""
 A = 'src/draco/compression/attributes/'
 DEPS = ['core']
+AE = A + 'sequential_integer_attribute_encoder.cc'
 functions = [
     {'name': 'SIAD_DecodeIntegerValues', 'file': A + 'sequential_integer_attribute_decoder.cc',
      'anchor': r'bool SequentialIntegerAttributeDecoder::DecodeIntegerValues\(\s*const std::vector<PointIndex> &point_ids, DecoderBuffer \*in_buffer\)\s*\{',
@@ -26,6 +27,13 @@ functions = [
      'loops': {0: '__CPROVER_assigns(i, __CPROVER_object_whole(out))\n__CPROVER_loop_invariant(0 <= i && i <= in_values)\n'
                   '__CPROVER_loop_invariant(ghost_k < 0 || ghost_k >= in_values || out[ghost_k] == (ghost_k < i ? ZZ_U2S32((uint32_t)__CPROVER_loop_entry(out[ghost_k >= 0 && ghost_k < in_values ? ghost_k : 0])) : __CPROVER_loop_entry(out[ghost_k >= 0 && ghost_k < in_values ? ghost_k : 0])))\n'
                   '__CPROVER_decreases(in_values - i)'}},
+    # the raw (no built-in compression) branch of SequentialIntegerAttributeEncoder::EncodeValues: byte width chosen from the OR of all symbols, then
+    # every symbol written with that many low-order bytes
+    {'name': 'SIAE_EncodeRawValues', 'file': AE,
+     'region': r'"use_built_in_attribute_compression", true\)\) \{.*?\} else \{\n(.*?)\n  \}\n  if \(prediction_scheme_\) \{\s*prediction_scheme_->EncodePredictionData', 'region_tail': 'return true;',
+     'sig': 'bool SIAE_EncodeRawValues(const int32_t *encoded_data, int num_values, struct EncoderBuffer *out_buffer)',
+     'subst': [(r'encoded_data\.data\(\)', 'encoded_data', 0), (r'out_buffer->Encode\(static_cast<uint8_t>\(((?:[^()]|\([^()]*\))*)\)\)', r'EncoderBuffer_Encode_u8_val(out_buffer, (uint8_t)(\1))', 0),
+               (r'out_buffer->Encode\(', 'EncoderBuffer_EncodeBytes(out_buffer, ', 0), (r'DataTypeLength\(DT_INT32\)', '4', 0)]},
 ]
 UNIT = {'name': 'attrdec', 'structs': [], 'consts': [], 'functions': functions,
         'pre_text': ['struct vec_pid { const uint32_t *data; size_t size; };',
@@ -42,6 +50,7 @@ def J(id, entry, props, enforce=None, replace=(), loops=False, unwind=None, unwi
 COSIM = False
 ASSUMPTIONS = ['SequentialIntegerAttributeDecoder: PreparePortableAttribute / GetPortableAttributeData / portable_attribute()->buffer()->data_size() are contract stubs (the portable attribute is an int32 array of num_entries * num_components values, as PointAttribute::Reset allocates it); the prediction scheme is an opaque object whose three virtual calls are stubs requiring exactly the buffer extent DecodeIntegerValues is entitled to pass',
                'DecodeSymbols is used through a contract that requires the output array to hold num_values entries (its dispatch is under contract in unit symbols; its loops are not)',
+               'raw attribute path: only the else-branch of SequentialIntegerAttributeEncoder::EncodeValues is sliced (region); the lemma reads the values back through the frozen layout (num_bytes low-order bytes, little endian, zero extended), which is what DecodeIntegerValues (under contract for memory safety) does',
                'point_ids.size() < 2^31 / num_components (the cast static_cast<int>(num_entries) and the product num_entries * num_components are caller obligations: the number of points is checked against the stream length by the callers)']
 # The sizes in this function are products num_entries * num_components * sizeof: with a SYMBOLIC component count the solver has to relate the multiplier
 # in the code to the one in the stub contracts (measured: no answer in 15 min); with the count fixed per job every product is by a constant.
@@ -50,4 +59,6 @@ for nc in [0] + list(range(1, 33)):
     J('DecodeIntegerValues.contract.nc%d' % nc, 'h_enf_SIAD_DecodeIntegerValues', ['C02', 'C03', 'C18'], enforce='SIAD_DecodeIntegerValues', loops=True, defines=DEFS + ['-DATTR_NC=%d' % nc],
       replace=['DecoderBuffer_DecodeBytes', 'DecodeSymbols', 'ConvertSymbolsToSignedInts_inplace', 'PS_AreCorrectionsPositive', 'PS_DecodePredictionData', 'PS_ComputeOriginalValues'],
       timeout=900, cost=4, cbmc=['--object-bits', '11'], tier=None if nc <= 8 else 'thorough', no_vacuity=nc > 2)
+J('rawvalues.rt', 'h_rawvalues_rt', ['C04', 'C05', 'C01'], unwind=34,
+  unwind_reason='bounded: num_values <= 3 (loops over the values; 32-byte model initialisation; byte copies of <= 12 bytes); all symbol values; unwinding assertions on')
 J('ConvertSymbolsToSignedInts.inplace.contract', 'h_enf_ConvertSymbolsToSignedInts_inplace', ['C02', 'C17'], enforce='ConvertSymbolsToSignedInts_inplace', loops=True, timeout=900, cost=4)
